@@ -44,6 +44,8 @@ type world struct {
 	runParked      bool          // … and a call is parked there
 	writesInFlight int           // UpdateStatus calls entered and not yet returned
 	failFirst      string        // "", "T", "F": the next source that opens fails on its first Read
+	stopFail       int           // the next n stop calls (v1: Stop RPC, v2: Teardown) of an additional source fail
+	v2             bool          // engine under test
 	hold           bool          // the destination withholds its acks (the drain cannot finish)
 	holdCh         chan struct{} // closed by release / releaseerr
 	holdErr        bool          // the withheld acks carry an error (the records are nacked)
@@ -271,7 +273,66 @@ func (d *dispenser) DispenseSpecifier() (connectorPlugin.SpecifierPlugin, error)
 	return nil, errors.New("verif: no specifier")
 }
 func (d *dispenser) DispenseSource() (connectorPlugin.SourcePlugin, error) {
+	if d.id != "src" {
+		return &quietSource{w: d.w}, nil
+	}
 	return &fakeSource{w: d.w, fail: make(chan string, 1)}, nil
+}
+
+// quietSource is the plugin of the additional sources of a multi-source pipeline: it emits no
+// records and no trace tokens; its stop path (v1: the Stop RPC, v2: Teardown, which is what
+// funnel.Worker.Stop calls) fails on script, one call at a time (`SF` token).
+type quietSource struct {
+	w *world
+}
+
+func (q *quietSource) LifecycleOnCreated(context.Context, pconnector.SourceLifecycleOnCreatedRequest) (pconnector.SourceLifecycleOnCreatedResponse, error) {
+	return pconnector.SourceLifecycleOnCreatedResponse{}, nil
+}
+func (q *quietSource) LifecycleOnUpdated(context.Context, pconnector.SourceLifecycleOnUpdatedRequest) (pconnector.SourceLifecycleOnUpdatedResponse, error) {
+	return pconnector.SourceLifecycleOnUpdatedResponse{}, nil
+}
+func (q *quietSource) LifecycleOnDeleted(context.Context, pconnector.SourceLifecycleOnDeletedRequest) (pconnector.SourceLifecycleOnDeletedResponse, error) {
+	return pconnector.SourceLifecycleOnDeletedResponse{}, nil
+}
+func (q *quietSource) Configure(context.Context, pconnector.SourceConfigureRequest) (pconnector.SourceConfigureResponse, error) {
+	return pconnector.SourceConfigureResponse{}, nil
+}
+func (q *quietSource) Open(context.Context, pconnector.SourceOpenRequest) (pconnector.SourceOpenResponse, error) {
+	return pconnector.SourceOpenResponse{}, nil
+}
+func (q *quietSource) NewStream() pconnector.SourceRunStream {
+	return &builtin.InMemorySourceRunStream{}
+}
+func (q *quietSource) Run(ctx context.Context, stream pconnector.SourceRunStream) error {
+	st, ok := stream.(*builtin.InMemorySourceRunStream)
+	if !ok {
+		return errors.New("verif: unexpected stream type")
+	}
+	st.Init(ctx)
+	return nil
+}
+func (q *quietSource) failOnce(v2 bool) bool {
+	q.w.mu.Lock()
+	defer q.w.mu.Unlock()
+	if q.w.stopFail > 0 && q.w.v2 == v2 {
+		q.w.stopFail--
+		q.w.evLocked("SF")
+		return true
+	}
+	return false
+}
+func (q *quietSource) Stop(context.Context, pconnector.SourceStopRequest) (pconnector.SourceStopResponse, error) {
+	if q.failOnce(false) {
+		return pconnector.SourceStopResponse{}, errors.New("verif: plugin stop temporarily unavailable")
+	}
+	return pconnector.SourceStopResponse{}, nil
+}
+func (q *quietSource) Teardown(context.Context, pconnector.SourceTeardownRequest) (pconnector.SourceTeardownResponse, error) {
+	if q.failOnce(true) {
+		return pconnector.SourceTeardownResponse{}, errors.New("verif: plugin teardown temporarily unavailable")
+	}
+	return pconnector.SourceTeardownResponse{}, nil
 }
 func (d *dispenser) DispenseDestination() (connectorPlugin.DestinationPlugin, error) {
 	return &fakeDest{w: d.w, id: d.id}, nil
@@ -305,7 +366,7 @@ func (s *fakeSource) Open(_ context.Context, r pconnector.SourceOpenRequest) (pc
 		pos, _ = strconv.Atoi(string(r.Position))
 	}
 	s.next = pos + 1
-	s.last = r.Position
+	s.last = nil // LastPosition (Stop) is the last position produced in THIS run; nothing produced yet
 	s.opened = true
 	s.w.srcOpen++
 	s.w.cur = s
